@@ -146,7 +146,7 @@ def run(rep, tier):
     wd = _private_dir("run")
     sfx = "tiny" if quick else "deep"
     rep.rule = ("TLC enumerates, for each of ~70 veriT/Alethe step rules (clausification and tautology rules, and/or/implies/equiv/ite/xor "
-                "eliminations, th_resolution, contraction, eq_reflexive/transitive/congruent(_pred), trans, cong, subproof, the *_simplify "
+                "eliminations, th_resolution (incl. compound pivots - disjunction, conjunction, negated disjunction, implication - at every position), contraction, eq_reflexive/transitive/congruent(_pred), trans, cong, subproof, the *_simplify "
                 "families, connective_def, ac_simp, la_generic/la_disequality/la_rw_eq, comp/sum/prod/minus/unary_minus/div simplify, "
                 "forall_inst, qnt_*), the intended instances of the reference schema over seed pools of level %d and every one-point near "
                 "miss of them to term depth %d (literal dropped/added/negated/swapped; premise dropped/added/swapped; a connective, atom, "
